@@ -34,6 +34,7 @@ def base_text(name):
 CELL_VALUES = [
     "9223372036854775808", "9223372036854775807", "18446744073709551616", "-9223372036854775809", "4294967296", "2147483648", "65536", "256",
     "9223372036854775808", "18446744073709551615", "1" + "0" * 40, "-" + "9" * 25,
+    "cafe\u0301", "caf\u00e9", "\u212b", "\u00c5", "A\u030a", "\ufb01", "fi", "\u1e9b\u0323", "minimal\u200b", "mini\u00admal",
     "30000/0", "1/0", "64/0", "0/0", "-1/0", "30000/1001", "1/2", "4/2", "1e400", "1e-400", "inf", "-inf", "nan", "Infinity", "0.0", "1.0", "1e0", "\uff11\uff12", "1 000", "0b1", "0o7", "1j", "1L", "--1", "+-1",
     "", "default", "DEFAULT", "0", "1", "-1", "2", "3", "64", "999", "1e3", "1.5", "0x10", " 7 ", "+5", "1_0", "٣", "TRUE", "false", "yes", "maybe",
     "high_quality", "low_delay", "unconstrained", "hd", "pictures_are_fields", "le_gall_5_3", "fidelity", "color_4_2_0", "interlaced",
